@@ -609,6 +609,9 @@ def gen_cases(rng, tier, ctx):
             cases.append(dict(c, side='model'))
         else:
             cases.append(c)
+    for _ in range(40 if tier == 'quick' else 1500):
+        cases.append(R4.gen_loop_edit(rng, g if rng.random() < 0.5 else gc))
+    cases.extend(R4.enum_loop_empty())
     enum4 = R4.enum_coincide(C) + R4.enum_context(C) + R4.enum_loop_coincide()
     if tier != 'thorough':
         rng.shuffle(enum4)
@@ -698,7 +701,12 @@ def build_pt(t, singles, share=False):
                 return PointPT([(0, 1.0), (d, 2.0)], chs, measurements=ms_of(t), **kw)
             return FunctionPT('1 + t', d, chs[0], measurements=ms_of(t), **kw)
         if k == 'multi':
-            return AtomicMultiChannelPT(*[go(c) for c in t['subs']], measurements=ms_of(t), **kw)
+            subs = [go(c) for c in t['subs']]
+            if t.get('via') == 'wpa' and len(subs) >= 2 and not kw:
+                # the other construction path: first part (with the composite's declarations) .with_parallel_atomic(rest)
+                first = AtomicMultiChannelPT(subs[0], measurements=ms_of(t)) if t['ms'] or t.get('wrap1') else subs[0]
+                return first.with_parallel_atomic(*subs[1:])
+            return AtomicMultiChannelPT(*subs, measurements=ms_of(t), **kw)
         if k == 'arith':
             return ArithmeticAtomicPulseTemplate(go(t['l']), t['op'], go(t['r']), measurements=ms_of(t), **kw)
         if k == 'seq':
@@ -728,9 +736,9 @@ def build_pt(t, singles, share=False):
     return go(t)
 
 
-def _windows(prog):
+def _windows(prog, drop=False):
     out = []
-    for name, (begins, lengths) in prog.get_measurement_windows().items():
+    for name, (begins, lengths) in (prog.get_measurement_windows(drop=True) if drop else prog.get_measurement_windows()).items():
         for b, l in zip(begins, lengths):
             out.append([name, vlib.frac_json(vlib.to_fraction(b)), vlib.frac_json(vlib.to_fraction(l))])
     out.sort(key=lambda w: (str(w[0]), F(w[1]), F(w[2])))
@@ -770,7 +778,24 @@ def run_impl(case):
                 if case['kind'] == 'vol':
                     return X.run_vol(case, build_pt, _num, _windows)
                 if case['kind'] == 'loop':
-                    loop = build_loop(case['loop'])
+                    if 'base' in case:
+                        # round 4: the loop is built as `base`, queried (durations get cached along the parent chain), then
+                        # edited by append_child at inner nodes; case['loop'] is the tree after the edits
+                        loop = build_loop(case['base'])
+                        _windows(loop), loop.duration
+                        for j, (path, child) in enumerate(case['edits']):
+                            node = loop
+                            for i in path:
+                                node = node[i]
+                            if j % 2:
+                                node.append_child(loop=build_loop(child))
+                            else:
+                                c = build_loop(child)
+                                node.append_child(waveform=c._waveform, measurements=c._measurements,
+                                                  repetition_count=c.repetition_count, children=list(c))
+                            _windows(loop), loop.duration
+                    else:
+                        loop = build_loop(case['loop'])
                     obs = {'dur': vlib.frac_json(loop.duration), 'ws': _windows(loop), 'wrev': None, 'wclean': None}
                     obs['ws_again'] = _windows(loop)        # the query must not change what it reports
                     if not _has_empty(case['loop']):
@@ -783,6 +808,8 @@ def run_impl(case):
                     c.cleanup()
                     obs['wclean'] = _windows(c)
                     obs['durclean'] = vlib.frac_json(c.duration)
+                    obs['wsd'] = _windows(loop, drop=True)      # drop=True reports the same windows and leaves none behind
+                    obs['wsd_after'] = _windows(loop)
                     return obs
                 singles = []
                 pt = build_pt(case['pt'], singles, case.get('share', False))
@@ -844,6 +871,9 @@ def run_impl(case):
                 prog.cleanup()
                 obs['wsc'] = _windows(prog)
                 obs['durc'] = vlib.frac_json(prog.duration)
+                obs['wsd_ref'] = obs['wsc']
+                obs['wsd'] = _windows(prog, drop=True)
+                obs['wsd_after'] = _windows(prog)
                 return obs
     except vlib.Timeout:
         return {'hang': True}
@@ -1134,6 +1164,12 @@ def py_spec(case, obs):
     """the observation points of the property report the same windows (the first one is judged in Coq)"""
     if obs.get('ws_again') is not None and obs['ws_again'] != obs['ws']:
         return 'get_measurement_windows() called twice on the unchanged program reports different windows'
+    if 'wsd' in obs and obs['wsd'] != obs.get('wsd_ref', obs.get('ws')):
+        return 'get_measurement_windows(drop=True) reports other windows than get_measurement_windows()'
+    if obs.get('wsd_after'):
+        return 'get_measurement_windows(drop=True) leaves windows behind'
+    if obs.get('wsv_clean') is not None and obs['wsv_clean'] != obs.get('ws1'):
+        return 'cleanup() of a program with volatile repetition counts changes the windows'
     if obs.get('wrev2') is not None and obs['wrev2'] != obs['ws']:
         return 'reverse_inplace() applied twice does not give the original windows back'
     if obs.get('first') is not None:
